@@ -1,6 +1,8 @@
 package main
 
 import (
+	"time"
+	"go/constant"
 	"fmt"
 	"strings"
 
@@ -287,6 +289,41 @@ func rulesC03(e *Engine, r *Report) {
 				"after Pop() answered nil the stage waits on its input channel only: a file withheld by last-delay (or otherwise not due yet) is not looked at again until another scan batch arrives - possibly never", 1, facts...)
 		})
 		r.Min("R03.11", "selects in startQueue", n, 1)
+	}
+	// ---------------------------------------------------------------- R03.12
+	e.shareRule(r, "C06", "R06.8", "R03.12", "a held file survives a restart: the companion is the only thing recovery finds a validated, parked file by, so no path removes the companion of a file that is validated but not yet delivered (every companion removal sits in the frozen, guarded table)")
+	// ---------------------------------------------------------------- R03.13
+	r.Rule("R03.13", "the pacing of polls and retries is given in time units: every constant that package main stores into a time.Duration option of the source configuration as a default is a whole number of milliseconds of at least one (a bare 60 or 5 is 60 ns / 5 ns: all poll attempts are spent within microseconds of the transmission, the file is taken for lost, hashed again and re-sent whole while the receiver is still validating it)")
+	{
+		n := 0
+		for _, fn := range e.FuncsIn("main") {
+			Instrs(fn, func(in ssa.Instruction) {
+				st, ok := in.(*ssa.Store)
+				if !ok {
+					return
+				}
+				fa, ok := st.Addr.(*ssa.FieldAddr)
+				if !ok {
+					return
+				}
+				f := fieldVar(fa.X, fa.Field)
+				if f == nil || e.typeShort(f.Type()) != "time.Duration" || !strings.HasPrefix(e.Canon(fa.X), "p0.conf") {
+					return
+				}
+				c, ok := st.Val.(*ssa.Const)
+				if !ok || c.Value == nil {
+					return
+				}
+				v, exact := constant.Int64Val(constant.ToInt(c.Value))
+				if !exact || v == 0 {
+					return
+				}
+				n++
+				r.Check(v >= int64(time.Millisecond) && v%int64(time.Millisecond) == 0, "R03.13", fmt.Sprintf("%s: default of %s is a duration", e.ShortName(fn), f.Name()), e.InstrPos(in),
+					fmt.Sprintf("the default stored into %s is the bare number %d, i.e. %d nanoseconds", f.Name(), v, v), 1, fmt.Sprint(time.Duration(v)))
+			})
+		}
+		r.Min("R03.13", "constant defaults of duration options in package main", n, 4)
 	}
 }
 
